@@ -165,6 +165,12 @@ func init() {
 		"(*encoding/gob.Decoder).Decode": func(fr *frame, args []value) value {
 			f := fr.fileOf(args[0])
 			if fr.fsFault("Decode") {
+				// a failed read is either an I/O error or a short read, which gob reports as
+				// io.ErrUnexpectedEOF (truncated run file): the flavour is solver-chosen too
+				sh := fr.i.nondet(fr, fmt.Sprintf("shortread_%d", fr.i.fs.ops), 0, 1, types.Bool)
+				if fr.branch(fr.i.truth(sh)) {
+					return fr.i.globalValue("io", "ErrUnexpectedEOF")
+				}
 				return fr.fsErr("Decode")
 			}
 			if f.closed {
